@@ -22,10 +22,46 @@ def hold_iv(r):
     return None
 
 
+def period_divisor(ka, h):
+    """Largest k such that the structure of the value `ka` guarantees ka <= h / k for every accepted hold
+    time h >= 3; None when no bound follows.  h / c and h // c divide, int() and min() keep the bound, max()
+    needs every operand bounded, and a constant c is below h / k for all h >= 3 exactly when c <= 3 / k."""
+    INF_ = float('inf')
+
+    def go(v):
+        if h is not None and hasattr(v, 'desc') and v.desc() == h.desc():
+            return 1.0
+        if isinstance(v, Const) and isinstance(v.value, (int, float)) and not isinstance(v.value, bool):
+            return INF_ if v.value <= 0 else 3.0 / v.value
+        if isinstance(v, Sym) and v.origin:
+            op, args = v.origin[0], v.origin[1]
+            if op in ('/', '//') and len(args) == 2 and isinstance(args[1], Const) and \
+                    isinstance(args[1].value, (int, float)) and args[1].value > 0:
+                k = go(args[0])
+                return None if k is None else k * args[1].value
+            if op == '*' and len(args) == 2:
+                for a, b in ((args[0], args[1]), (args[1], args[0])):
+                    if isinstance(b, Const) and isinstance(b.value, (int, float)) and b.value > 0:
+                        k = go(a)
+                        return None if k is None else k / b.value
+                return None
+            if op == 'min':
+                ks = [k for k in (go(a) for a in args) if k is not None]
+                return max(ks) if ks else None
+            if op == 'max':
+                ks = [go(a) for a in args]
+                return None if any(k is None for k in ks) else min(ks)
+            if op in ('int', 'floor', 'opaque') and len(args) == 1:
+                return go(args[0])
+        return None
+    return go(ka)
+
+
 def check(prog, rep, tier):
-    rep.rule('R03.a', 'keepalive period: keep_alive_time is written only at construction and by hold-time '
-                      'negotiation as hold_time / k with constant k >= 3; keep_alive_timer is always '
-                      're-armed with it')
+    rep.rule('R03.a', 'keepalive period: the value an accepted OPEN leaves in keep_alive_time is bounded by '
+                      'hold_time / 3 for every accepted hold time (structural bound through / // int min max), the hold '
+                      'time is min(configured, proposed), no event of a running session changes either value, and '
+                      'keep_alive_timer is always re-armed with keep_alive_time')
     rep.rule('R03.b', 'keepalive timer expiry in OpenConfirm/Established sends KEEPALIVE and re-arms the '
                       'timer exactly when H > 0')
     rep.rule('R03.c', 'KEEPALIVE in OpenConfirm/Established and UPDATE in Established restart the hold '
@@ -49,18 +85,10 @@ def check(prog, rep, tier):
         if f.name == '__init__':
             rep.ok('R03.a', 'writer:%s' % f.qualname, file=f.file, line=st.lineno, found=src_of(st))
             continue
-        # RHS must be <hold_time expr> / k, k >= 3 constant
-        good = False
-        if isinstance(val, ast.BinOp) and isinstance(val.op, (ast.Div, ast.FloorDiv)):
-            k = prog.try_fold(val.right, f.module, f.cls)
-            if isinstance(k, (int, float)) and k >= 3 and 'hold_time' in src_of(val.left):
-                good = True
-        if good:
-            rep.ok('R03.a', 'writer:%s' % f.qualname, file=f.file, line=st.lineno, found=src_of(st))
-        else:
-            rep.bad('R03.a', 'writer:%s' % f.qualname, file=f.file, line=st.lineno, func=f.qualname,
-                    found=src_of(st), expected='keep_alive_time = hold_time / k with k >= 3',
-                    key='writer:%s' % f.qualname)
+        # any other writer: what matters is what the negotiation leaves (negotiated-period, below) and that no
+        # event of a running session changes it (session-constants, below); a write on the way out of a session
+        # (error close restoring the configured value) is harmless
+        rep.ok('R03.a', 'writer:%s' % f.qualname, file=f.file, line=st.lineno, found=src_of(st), nontrivial=False)
     n = 0
     for state in ORDER:
         for r in tab.get('WIRE', state):
@@ -68,14 +96,14 @@ def check(prog, rep, tier):
                 n += 1
                 ka = r.field('fsm', 'keep_alive_time')
                 h = r.field('fsm', 'hold_time')
-                ok = isinstance(ka, Sym) and ka.origin and ka.origin[0] in ('/', '//') and \
-                    isinstance(ka.origin[1][1], Const) and ka.origin[1][1].value >= 3 and \
-                    ka.origin[1][0].desc() == (h.desc() if h is not None else None)
+                kdiv = period_divisor(ka, h)
+                ok = kdiv is not None and kdiv >= 3
                 if not ok:
                     rep.bad('R03.a', 'negotiated-period@%s' % state, file='yabgp/core/protocol.py',
                             line=common.row_line(r), func='BGP.negotiate_hold_time',
                             found='after accepting OPEN keep_alive_time = %s, hold_time = %s' % (
-                                cval(ka), cval(h)), expected='keep_alive_time = hold_time / k, k >= 3',
+                                cval(ka), cval(h)), expected='keep_alive_time <= hold_time / 3 for every accepted hold time '
+                            '(hold_time / k or // k with k >= 3, possibly under int() / max(c <= 1, .) / min(.))',
                             key='negotiated-period', path=r.describe())
                     break
                 hv = h.origin if isinstance(h, Sym) else None
@@ -94,6 +122,32 @@ def check(prog, rep, tier):
                    found='%d accepting paths: hold = min(configured, proposed), keepalive = hold / k, k >= 3' % n)
     else:
         rep.undecided('R03.a', 'negotiated-period', found='no accepting OPEN path in the table')
+    # no event of a running session changes the two negotiated values
+    nsc = 0
+    bad_sc = set()
+    for (ev, state), rows in sorted(tab.rows.items()):
+        if state not in ('OpenConfirm', 'Established'):
+            continue
+        for r in rows:
+            if r.kind == 'raise' or r.final not in ('OpenConfirm', 'Established'):
+                continue
+            if ev == 'WIRE' and r.wire['cls'] == 'OPEN':
+                continue        # a further OPEN in OpenConfirm negotiates again (collision detection is a TODO of the
+                #                 FSM; the C01 profile leaves that cell open) - which H counts then is not for C03
+            nsc += 1
+            for fld in ('hold_time', 'keep_alive_time'):
+                v = r.field('fsm', fld)
+                if not (isinstance(v, Sym) and v.name == 'fsm.%s' % fld):
+                    key = 'session-constants:%s@%s@%s' % (fld, ev if ev != 'WIRE' else 'WIRE:' + r.wire['cls'], state)
+                    if key not in bad_sc:
+                        bad_sc.add(key)
+                        rep.bad('R03.a', key, file=common.row_file(r), line=common.row_line(r), func=common.row_func(r),
+                                found='%s of the running session becomes %s' % (fld, cval(v)),
+                                expected='the negotiated values stay as negotiated while the session lasts', key=key,
+                                path=r.describe())
+    if not bad_sc:
+        rep.ok('R03.a', 'session-constants', found='%d continuing paths leave hold_time and keep_alive_time alone' % nsc)
+    rep.floor('R03.a', 'continuing session paths', nsc, 60)
     # every keep_alive reset uses the current keep_alive_time; every hold reset the hold time / 240
     for (ev, state), rows in sorted(tab.rows.items()):
         for r in rows:
